@@ -249,7 +249,7 @@
 		let _ = yasna::construct_der(|w| write_dt_utc_or_generalized(w, dt));
 	}
 
-	/// @ob time.strip_nanos @props C09 @kind forall @tier quick @timeout 900 @mem 20 @replay time @fns rcgen::dt_strip_nanos
+	/// @ob time.strip_nanos @props C02,C08,C09 @kind forall @tier quick @timeout 900 @mem 20 @replay time @fns rcgen::dt_strip_nanos
 	#[kani::proof]
 	#[kani::unwind(8)]
 	fn strip_nanos_contract() {
